@@ -7,6 +7,8 @@
 #include <sstream>
 
 #include "cctz/time_zone.h"
+#include <thread>
+
 #include "oracle.h"
 #include "sup.h"
 #include "time_zone_fixed.h"
@@ -152,6 +154,20 @@ struct Mon {
     if (es) {
       if (!ok || calls != 0) ctx.viol("C15", "shape-load", "name=" + s + " ok=" + std::to_string(ok) + " factory calls=" + std::to_string(calls));
       if (ok) check_zone_at(tz, eo, "load-mutated-name");
+      if (ok && eo != 0 && s != exp_name(eo)) {
+        // another accepted spelling of an offset (a minutes or seconds field above 59) was loaded, perhaps before the
+        // canonical one: the zone it yields carries the name it was asked for, and the canonical zone is unaffected
+        ctx.stat("C15.evaluations", 3);
+        ctx.stat("C15.non_canonical_spellings_loaded");
+        if (tz.name() != s) ctx.viol("C15", "non-canonical-spelling:name", "loaded " + s + " reports name " + tz.name());
+        cctz::time_zone fz = cctz::fixed_time_zone(cctz::seconds(eo));
+        if (fz.name() != exp_name(eo))
+          ctx.viol("C15", "non-canonical-spelling:canonical-zone-renamed", "after loading " + s + ", fixed_time_zone(" + std::to_string(eo) + ").name() is " + fz.name());
+        cctz::time_zone cz;
+        if (!cctz::load_time_zone(exp_name(eo), &cz) || cz.name() != exp_name(eo) || !(cz == fz))
+          ctx.viol("C15", "non-canonical-spelling:canonical-load", "after loading " + s + ", loading " + exp_name(eo) + " gives name " + cz.name());
+        check_zone_at(fz, eo, "fixed_time_zone-after-other-spelling");
+      }
     } else {
       // not a fixed name: resolved as zone data, which does not exist under these names
       if (ok || !(tz == cctz::utc_time_zone()))
@@ -205,6 +221,9 @@ int main(int argc, char** argv) {
                           "Fixed/UTC+0a:00:00", "Fixed/UTC++1:00:00", "Fixed/UTC+-1:00:00", "UTC1", "UTC00", "utc", "UTC+0", "", "U", "UT",
                           "GMT", "Z", "Fixed/UTC+12:34:56", "Fixed/UTC-12:34:56", "Fixed/GMT+01:00:00", "Fixed/UTC+24:00:00x"})
       names.push_back({s, "special"});
+    for (const char* s : {"Fixed/UTC+00:60:00", "Fixed/UTC+00:90:00", "Fixed/UTC-01:59:60", "Fixed/UTC+00:00:99", "Fixed/UTC-00:99:99", "Fixed/UTC+23:59:60",
+                          "Fixed/UTC-23:59:60", "Fixed/UTC+22:99:00", "Fixed/UTC+00:00:60", "Fixed/UTC-00:60:60"})
+      names.push_back({s, "field-above-59"});
     sup::Rng r(seed, 77);
     for (int i = 0; i < (thorough ? 20000 : 3000); ++i) {
       std::string m = "Fixed/UTC+00:00:00";
@@ -240,6 +259,16 @@ int main(int argc, char** argv) {
           long v = static_cast<long>(rr.next());
           m.offset_case(v, true);
           ctx.stat("C15.offsets_beyond_int32");
+        }
+      }
+      if (c % 40 == 3) {
+        // the first call a thread ever makes: one fresh thread per offset, for offsets that make natural sentinels
+        static const long kFirst[] = {-1, 0, 1, -2, 2, 59, -59, 60, -60, 3600, -3600, 86399, -86399, 86400, -86400, 86401, -86401,
+                                      2147483647L, -2147483648L, 4294967295L, INT64_MAX, INT64_MIN};
+        for (long o : kFirst) {
+          std::thread t([&m, o]() { m.offset_case(o, true); });
+          t.join();
+          ctx.stat("C15.first_calls_on_fresh_threads");
         }
       }
       if (c == noff / 2 + 7) {
